@@ -38,10 +38,43 @@ def _initial_state_ok(repo: Repo, f: FuncInfo, call: ast.Call, p, problem_param:
     return ok_p, ok_f, ok_i
 
 
+def _is_last_next_state(pth, step_fn: str) -> bool:
+    """<result of the step function> [appended to the list, last element taken] .next_state"""
+    if pth[-1] != "attr:next_state":
+        return False
+    i = max(k for k, s_ in enumerate(pth) if s_.endswith(":" + step_fn))
+    mid = pth[i + 1:-1]
+    return all(s_.startswith("in:append@") or s_ == "item:-1" for s_ in mid) and (not mid or mid[-1] == "item:-1")
+
+
+def _state_ctors_reaching(p, e) -> List[ast.Call]:
+    """State(...) constructor calls among the definitions of the expression (def-use closure over plain name copies)"""
+    out, seen, todo = [], set(), [e]
+    while todo:
+        x = todo.pop()
+        if id(x) in seen:
+            continue
+        seen.add(id(x))
+        if isinstance(x, ast.Call) and callee_name(x) == "State":
+            out.append(x)
+        elif isinstance(x, ast.Name):
+            try:
+                at = p.node_of(x)
+            except KeyError:
+                continue
+            for d in p.rd.defs_reaching(at, x.id):
+                st = p.g.stmt[d]
+                if isinstance(st, (ast.Assign, ast.AnnAssign)) and st.value is not None:
+                    todo.append(st.value)
+        elif isinstance(x, ast.IfExp):
+            todo += [x.body, x.orelse]
+    return out
+
+
 def rule_thread(repo: Repo, rid: str, fname: str, step_fn: str, init_fn: Optional[str] = None) -> RuleResult:
     r = RuleResult(rid, f"{fname}: states are threaded (first = initial state, next pre-state = previous post-state), one triplet per plan line, plan order kept",
                    "every pre-state equals the preceding post-state; one step per plan line, in plan order")
-    f = repo.func(fname)
+    f = L.fn(repo, fname, also={init_fn.split("::")[-1].split(".")[-1]} if init_fn else None)
     p = L.prov(repo, f)
     g = C.cfg_of(f.node)
     loops = [n for n in ast.walk(f.node) if isinstance(n, ast.For) and any(callee_name(c) == step_fn for c in L.calls_in(n))]
@@ -75,7 +108,7 @@ def rule_thread(repo: Repo, rid: str, fname: str, step_fn: str, init_fn: Optiona
         str_ = p.trace(st) if st is not None else set()
         init_paths = [pth for pth in str_ if not any(s.endswith(":" + step_fn) for s in pth)]
         carried = [pth for pth in str_ if any(s.endswith(":" + step_fn) for s in pth)]
-        ok_carried = bool(carried) and all(pth[-1] == "attr:next_state" and pth[-2].endswith(":" + step_fn) for pth in carried)
+        ok_carried = bool(carried) and all(_is_last_next_state(pth, step_fn) for pth in carried)
         sample = {"state_argument_defined_by": sorted({"/".join(x[-2:]) for x in carried} | {x[0] for x in init_paths})}
         if not ok_carried:
             r.fail(Finding(rid, f, "thread:carried", f"the state handed to the next step is not <previous triplet>.next_state: {sorted(carried)[:3]}", node=c), sample)
@@ -85,24 +118,16 @@ def rule_thread(repo: Repo, rid: str, fname: str, step_fn: str, init_fn: Optiona
         r.site(L.site(f, c, "initial state"))
         init_ok = False
         detail = {}
-        if init_fn:
-            calls = [x for x in L.calls_in(f.node) if callee_name(x) == init_fn]
-            ifn = repo.func(init_fn)
-            ip = L.prov(repo, ifn)
-            ctor = [x for x in L.calls_in(ifn.node) if callee_name(x) == "State"]
-            if calls and ctor and any(pth[0] == "param:problem" for pth in p.trace(calls[0].args[0])):
-                a, b, c3 = _initial_state_ok(repo, ifn, ctor[0], ip, ifn.params[0])
-                init_ok = a and b and c3 and all(isinstance(x.value, ast.Call) and x.value is ctor[0] or
-                                                 (isinstance(x.value, ast.Name)) for x in L.func_returns(ifn))
-                detail = {"via": init_fn, "predicates": a, "fluents": b, "is_init": c3}
-                init_ok = init_ok and any(any(s == f"arg0:{init_fn}" for s in pth) for pth in init_paths)
-        else:
-            ctor = [x for x in L.calls_in(f.node) if callee_name(x) == "State"]
-            for ct in ctor:
-                a, b, c3 = _initial_state_ok(repo, f, ct, p, "problem")
-                if a and b and c3 and any(pth[0] == "fresh:State" for pth in init_paths):
-                    init_ok = True
-                    detail = {"predicates": a, "fluents": b, "is_init": c3}
+        ctor = [x for x in L.calls_in(f.node) if callee_name(x) == "State"]
+        for ct in ctor:
+            a, b, c3 = _initial_state_ok(repo, f, ct, p, "problem")
+            if a and b and c3 and init_paths and all(pth[0] == "fresh:State" or any(s_.endswith(":State") for s_ in pth) for pth in init_paths) and \
+                    any(ct is x for x in _state_ctors_reaching(p, st)):
+                init_ok = True
+                detail = {"predicates": a, "fluents": b, "is_init": c3}
+        if not init_ok and any(pth[0].startswith(("ext:", "unknown:")) or any(s.startswith("arg") and not s.endswith(":" + step_fn) for s in pth) for pth in init_paths) \
+                and not ctor:
+            raise AnalysisError(f"{fname}: the construction of the first pre-state is not visible ({sorted(init_paths)[:2]})")
         if init_ok:
             r.ok({"initial_state": detail})
         else:
@@ -128,7 +153,19 @@ def rule_thread(repo: Repo, rid: str, fname: str, step_fn: str, init_fn: Optiona
     return r
 
 
-def _apply_matcher(e):
+def _apply_matcher_for(p):
+    def m(e):
+        return _apply_matcher(e, p)
+    return m
+
+
+def _apply_matcher(e, p=None):
+    if isinstance(e, ast.Name) and p is not None:
+        if L.is_param(p, e, "skip_validation"):
+            return "skip"
+        if L.is_param(p, e, "allow_inapplicable_actions"):
+            return "allow"
+        return None
     if isinstance(e, ast.Name) and e.id == "skip_validation":
         return "skip"
     if isinstance(e, ast.Name) and e.id == "allow_inapplicable_actions":
@@ -143,12 +180,12 @@ def _apply_matcher(e):
 def rule_refuse(repo: Repo, rid: str = "C04.refuse") -> RuleResult:
     r = RuleResult(rid, "Operator.apply raises exactly when validation is on, the action is inapplicable and inapplicable actions are not allowed",
                    "an inapplicable action is refused unless explicitly allowed")
-    f = repo.func("Operator.apply")
-    G = L.Guards(f, _apply_matcher)
+    f = L.fn(repo, "Operator.apply")
+    p = L.prov(repo, f)
+    G = L.Guards(f, _apply_matcher_for(p))
     g = G.g
     if not {"applicable", "allow"} <= G.atoms_seen:
         raise AnalysisError(f"Operator.apply: guard atoms not recognised (seen {sorted(G.atoms_seen)})")
-    p = L.prov(repo, f)
     # applicability is asked about the pre-state parameter
     for c in L.calls_in(f.node):
         if callee_name(c) == "is_applicable" and isinstance(c.func, ast.Attribute):
@@ -205,7 +242,7 @@ def rule_refuse(repo: Repo, rid: str = "C04.refuse") -> RuleResult:
 def rule_except(repo: Repo) -> RuleResult:
     r = RuleResult("C04.except", "create_single_triplet: ValueError from apply -> successor rebuilt from the pre-state; triplet = (pre-state, operator, successor)",
                    "a refused action leaves the state unchanged in an exported trajectory")
-    f = repo.func("TrajectoryExporter.create_single_triplet")
+    f = L.fn(repo, "TrajectoryExporter.create_single_triplet")
     p = L.prov(repo, f)
     tries = [n for n in ast.walk(f.node) if isinstance(n, ast.Try)]
     applies = [c for c in L.calls_in(f.node) if callee_name(c) == "apply" and isinstance(c.func, ast.Attribute)]
@@ -298,7 +335,7 @@ def rule_except(repo: Repo) -> RuleResult:
 def rule_flag(repo: Repo) -> RuleResult:
     r = RuleResult("C04.flag", "the allow flag passed to apply is the exporter's constructor flag, default False",
                    "inapplicable actions are executed only when the caller explicitly allowed them")
-    f = repo.func("TrajectoryExporter.create_single_triplet")
+    f = L.fn(repo, "TrajectoryExporter.create_single_triplet")
     p = L.prov(repo, f)
     ap = repo.func("Operator.apply")
     for c in L.calls_in(f.node):
